@@ -34,7 +34,8 @@ CONSTANTS NameMask,   \* 4095 in git: width of the name-length field of the flag
                       \* dulwich write_cache_entry at 671b511), "leb128" (little-endian base-128 strip
                       \* count instead of git's offset varint, dulwich _compress_path at 671b511),
                       \* "stalestage" (the stage of a written entry is the slot OR-ed with the stage
-                      \* bits the entry object still carries from where it was read)
+                      \* bits the entry object still carries from where it was read),
+                      \* "readerskips" (a reader configured with skipHash does not look at the trailer)
 
 NM1 == NameMask + 1
 Min(a, b) == IF a < b THEN a ELSE b
@@ -291,6 +292,10 @@ Parse(s) ==
 \* The trailer is H(body) for an injective H (SHA-1 is trusted, see DESIGN section 4), modelled
 \* as the body itself; a skipHash trailer is "zeros" and accepts anything.
 Accepts(body, trailer) == trailer = <<"zeros">> \/ trailer = <<"H", body>>
+\* The reader has a configuration of its own (index.skipHash / feature.manyFiles: rsk).  It only says
+\* what the reader WRITES; what it accepts is decided by the file: a trailer that is not all zeros
+\* is a checksum and is verified by every reader (git: verify_hdr skips only the null hash).
+AcceptsR(rsk, body, trailer) == IF Defect = "readerskips" /\ rsk THEN TRUE ELSE Accepts(body, trailer)
 Damage(s, i) == [s EXCEPT ![i] = (s[i] + 1) % 256]
 
 \* ------------------------------------------------------------------ case universes
@@ -569,11 +574,15 @@ ParseInv ==
                 /\ p.es = out.expect
                 /\ p.exts = c.exts
 
-\* any single damaged byte is detected unless the hash is skipped
+\* reader configuration x trailer kind: a file with a real trailer is accepted undamaged and rejected
+\* with any single damaged byte by readers of BOTH configurations; a file with a zero trailer
+\* (written under skipHash) is accepted by both
+DamagePoints(body) == { i \in {1, 8, 12, 13, 73, Len(body) \div 2, Len(body) - 1, Len(body)} : i \in 1..Len(body) }
 ChecksumInv ==
-    Done => LET body == Expand(Runs(out.fields)) IN
-            IF c.skip THEN Accepts(body, <<"zeros">>)
-            ELSE /\ Accepts(body, <<"H", body>>)
-                 /\ \A i \in {1, 8, 12, 13, 73, Len(body) \div 2, Len(body) - 1, Len(body)} :
-                        i \in 1..Len(body) => ~Accepts(Damage(body, i), <<"H", body>>)
+    Done => LET all  == Expand(Runs(out.fields))
+                body == IF c.skip THEN SubSeq(all, 1, Len(all) - 20) ELSE all
+            IN  \A rsk \in BOOLEAN :
+                  /\ AcceptsR(rsk, body, <<"zeros">>)
+                  /\ AcceptsR(rsk, body, <<"H", body>>)
+                  /\ \A i \in DamagePoints(body) : ~AcceptsR(rsk, Damage(body, i), <<"H", body>>)
 =============================================================================
